@@ -18,7 +18,7 @@ BUDGET_S = {'quick': 3600, 'thorough': 14400}
 
 TIER = {'quick': dict(P=2, E=1, BW=2, W=32, WO=32), 'thorough': dict(P=3, E=2, BW=3, W=48, WO=40)}
 SHAPES = ['fb', 'fu', 'mp', 'xb', 'xu', 'real']
-C14_PROG_WITNESSES = []
+C14_PROG_WITNESSES = ['prog-format-fact', 'prog-set-fact', 'prog-narrow-float-format']
 # fb: float, bounded (prec, exp, bounds)     fu: float, unbounded range (prec, exp, inf)     mp: (prec, -inf, inf)
 # xb: fixed, bounded (inf, exp, bounds)      xu: fixed, unbounded (inf, exp, inf)            real: (inf, -inf, inf)
 
